@@ -71,6 +71,13 @@ CLAIMED = {
         "Trusts HiGHS LP optima and BVLS; a boundary target may be rejected only if its LP margin is below 1e-9.",
         "DESIGN.md section 6 C06",
     ),
+    "C07": (
+        "Hypothesis property-based testing with the witness principle (L-BFGS-B minimisers of the weighted Poisson NLL) and an exact LP-bisection optimum for the excitation objective; in-gamut agreement of the three models",
+        "Generated non-negative well-scaled systems, targets >= 0 in and out of gamut, baseline zero/non-zero, K scalar/vector; NLL(x_code) <= NLL(feasible witness) + tol, "
+        "max excitation difference <= LP-bisection optimum + 2.5e-2, all models reproduce in-gamut targets.",
+        "Witnesses are verified feasible, so a weak witness costs power, never soundness; excitation checked with the default solver only; two open known findings (C07-K1/K2) cover the SCS bisection's inaccurate iterates.",
+        "DESIGN.md section 6 C07",
+    ),
 }
 
 PENDING_REASON = "check not built yet in this revision (planned, see DESIGN.md section 6); not claimed until its check runs quietly on the unchanged tree"
